@@ -376,6 +376,140 @@ func c15Run(c *Ctx, idx int) CaseResult {
 		}
 	}
 
+	// the vault still answers after <what>
+	stillAnswers := func(what string) {
+		done := make(chan string, 1)
+		go func() {
+			ch, err := h.Vault.List(ctx, 0)
+			if err != nil {
+				done <- "error: " + err.Error()
+				return
+			}
+			got, _, closed := drain(ch, wd)
+			if !closed {
+				done <- "stream not closed"
+				return
+			}
+			if len(got) != len(recs) {
+				done <- fmt.Sprintf("returned %d plans, want %d", len(got), len(recs))
+				return
+			}
+			done <- ""
+		}()
+		select {
+		case m := <-done:
+			if m != "" {
+				add("after-stream", strings.ReplaceAll(what, " ", "-"), "List after a %s: %s", what, m)
+			}
+		case <-time.After(2 * wd):
+			add("stream-not-closed", "List,after-"+strings.ReplaceAll(what, " ", "-"), "List called after a %s did not answer within %v (connection or lock not released)", what, 2*wd)
+		}
+	}
+	// cancelled consumers: the caller reads k results, cancels its context and keeps draining — the stream must still
+	// be closed, what was delivered before the cancel must be what an uncancelled stream delivers first, and the vault
+	// must go on answering afterwards (a stream that keeps its connection or lock is the next caller's hang)
+	cancelled := func() {
+		if len(recs) < 1 {
+			return
+		}
+		useList := r.Intn(2) == 0
+		k := r.Intn(len(recs))
+		pre := r.Intn(6) == 0 // context cancelled before the call
+		cctx, cancel := context.WithCancel(ctx)
+		if pre {
+			cancel()
+		}
+		var ch chan storage.Stream[storage.ListResult]
+		var err error
+		what := "List"
+		var f storage.Filters
+		if useList {
+			ch, err = h.Vault.List(cctx, 0)
+		} else {
+			what = "Search"
+			f = storage.Filters{ByStatus: append([]workflow.Status{}, allStatuses...)}
+			ch, err = h.Vault.Search(cctx, f)
+		}
+		res.Counters["cancelled_streams"]++
+		if pre {
+			res.Counters["cancelled_before_call_"+kind]++
+			if err != nil {
+				res.Counters["cancelled_before_call_refused"]++
+			}
+		}
+		if err != nil {
+			cancel()
+			if !pre {
+				add("cancel-stream-error", what, "%s failed before its context was cancelled: %v", what, err)
+			}
+		} else {
+			var before []rec15
+			open := true
+			for len(before) < k && open && !pre {
+				select {
+				case sr, ok := <-ch:
+					if !ok {
+						open = false
+						break
+					}
+					if sr.Err != nil {
+						add("cancel-stream-error", what+",element", "%s produced an error element before its context was cancelled: %v", what, sr.Err)
+						open = false
+						break
+					}
+					st := workflow.Status(-1)
+					if sr.Result.State != nil {
+						st = sr.Result.State.Status
+					}
+					before = append(before, rec15{ID: sr.Result.ID, Group: sr.Result.GroupID, Name: sr.Result.Name, Descr: sr.Result.Descr, Submit: sr.Result.SubmitTime, Status: st})
+				case <-time.After(wd):
+					add("stream-not-closed", what+",stalled", "the stream returned by %s delivered %d of %d results and then nothing for %v", what, len(before), len(recs), wd)
+					open = false
+				}
+			}
+			cancel()
+			_, _, closed := drain(ch, wd)
+			if !closed {
+				add("stream-not-closed", what+",cancelled", "the stream returned by %s was not closed within %v after its context was cancelled (%d results read before)", what, wd, len(before))
+			}
+			want := refFilter(recs, f, 0)
+			if kind != "cosmos-fake" && len(before) <= len(want) && !sameOrdered(before, want[:len(before)]) {
+				add("cancel-stream", what+",prefix", "%s: the %d results read before the cancel %v are not the first results of the full answer %v", what, len(before), shortIDs(before), shortIDs(want))
+			}
+			if len(before) > 0 {
+				res.Counters["cancelled_midstream"]++
+			}
+		}
+		stillAnswers("cancelled " + what + " stream")
+	}
+	// refused queries: a Search the vault rejects (no filter at all) must be answered with an error or a stream that is
+	// closed, and must leave the vault able to answer the next caller
+	refused := func() {
+		res.Counters["refused_searches"]++
+		done := make(chan string, 1)
+		go func() {
+			ch, err := h.Vault.Search(ctx, storage.Filters{})
+			if err != nil {
+				done <- ""
+				return
+			}
+			if _, _, closed := drain(ch, wd); !closed {
+				done <- "stream not closed"
+				return
+			}
+			done <- ""
+		}()
+		select {
+		case m := <-done:
+			if m != "" {
+				add("stream-not-closed", "Search,no-filter", "Search without any filter: %s", m)
+			}
+		case <-time.After(2 * wd):
+			add("stream-not-closed", "Search,no-filter,no-answer", "Search without any filter did not answer within %v", 2*wd)
+		}
+		stillAnswers("refused Search")
+	}
+
 	nSteps := 3 + r.Intn(6)
 	if kind == "cosmos-fake" {
 		nSteps = 2 + r.Intn(3)
@@ -425,9 +559,24 @@ func c15Run(c *Ctx, idx int) CaseResult {
 			log = append(log, "delete")
 		}
 		queries()
+		if len(res.Viols) == 0 && (step%2 == 1 || kind == "cosmos-fake") {
+			cancelled()
+		}
+		if len(res.Viols) == 0 && step%3 == 2 {
+			refused()
+		}
 	}
 	if kind == "sqlite-file" {
-		h.Vault.Close(ctx)
+		// behind a watchdog of its own: closing a store whose connection was never given back waits for ever
+		closed := make(chan struct{})
+		go func() { h.Vault.Close(ctx); close(closed) }()
+		select {
+		case <-closed:
+		case <-time.After(wd):
+			if len(res.Viols) == 0 {
+				add("stream-not-closed", "Close", "closing the store did not return within %v after all streams were drained (a connection was not given back)", wd)
+			}
+		}
 	}
 	res.Nontriv = hashStr(fmt.Sprint(kind, log))
 	res.ISig = res.Nontriv
